@@ -2,6 +2,7 @@ SPECIFICATION Spec
 CONSTANT Tier = 0
 INVARIANT InvJar
 INVARIANT InvJarAsCoded
+INVARIANT InvJarAlt
 INVARIANT InvAgree
 INVARIANT InvMap
 INVARIANT InvTr
